@@ -654,7 +654,10 @@ class Oracles:
                     self.violate("C10", "leaked-space-reservation", self.nlabel(nid), f"{nid} has {len(ptoks)} outstanding space reservations "
                                  f"for {len(waiting)} finished item(s) at end of instant {now}")
                 gtoks = self.node_tokens(nid, "g")
-                free = len(nr.held) < nr.spec.get("wc", 1)
+                # a non-blocking machine is rid of an item in its finish instant (pushed or dropped, C09): an item that finished earlier
+                # and is still referenced by a worker does not occupy a worker as far as C10 is concerned
+                live = [l for l in nr.held.values() if nr.blocking or l.get("finish") is None or l["finish"] >= now]
+                free = len(live) < nr.spec.get("wc", 1)
                 if now >= setup:
                     per = {}
                     for tk in gtoks:
